@@ -327,19 +327,24 @@ func (hfh *HttpForwarderHandlerV2) Run(ctx context.Context) {
 				mms := mergedMetricMap.SplitByTags(hfh.dynHeaderNames)
 				hfh.releaseMergingSem()
 
+				// A flush has exactly one waiter on the coordinator, whatever number of requests the
+				// dynamic headers split it into (none, for an empty flush): notify once, when all are done.
+				var posts sync.WaitGroup
 				for dynHeaderTags, mm := range mms {
 					if mm.IsEmpty() {
-						hfh.notifyFlush()
 						continue
 					}
 					hfh.acquireSem()
+					posts.Add(1)
 					postId := atomic.AddUint64(&hfh.postId, 1) - 1
 					go func(postId uint64, metricMap *gostatsd.MetricMap, dynHeaderTags string) {
+						defer posts.Done()
 						hfh.postMetrics(context.Background(), metricMap, dynHeaderTags, postId)
-						hfh.notifyFlush()
 						hfh.releaseSem()
 					}(postId, mm, dynHeaderTags)
 				}
+				posts.Wait()
+				hfh.notifyFlush()
 			}()
 		}
 		for i := 0; i < cap(hfh.metricsSem); i++ {
